@@ -145,12 +145,12 @@ func (c *connection) write() {
 			verifAt(c, "W.exit")
 			return
 		case activeMsg, ok := <-c.activeMsgChan: // 平台主动下发的
-			verifAt(c, "W.sel.active", ok)
+			verifAt(c, "W.sel.active", ok, activeMsg)
 			if ok {
 				c.onActiveEvent(activeMsg, record)
 			}
 		case msg, ok := <-c.activeMsgCompleteChan: // 平台主动下发的完成情况
-			verifAt(c, "W.sel.complete", ok)
+			verifAt(c, "W.sel.complete", ok, msg)
 			if ok {
 				seq := msg.ExtensionFields.PlatformSeq
 				if v, ok := record[seq]; ok {
@@ -164,12 +164,12 @@ func (c *connection) write() {
 				}
 			}
 		case subPackMsg, ok := <-c.reissuePackChan: // 分包补传的
-			verifAt(c, "W.sel.reissue", ok)
+			verifAt(c, "W.sel.reissue", ok, subPackMsg)
 			if ok {
 				c.subPackReplyEvent(subPackMsg)
 			}
 		case msg, ok := <-c.msgChan: // 终端上传的
-			verifAt(c, "W.sel.msg", ok)
+			verifAt(c, "W.sel.msg", ok, msg)
 			if ok {
 				if len(record) > 0 && msg.hasComplete() { // 说明现在有主动的请求 等待回复中
 					if c.onActiveRespondEvent(record, msg) {
@@ -263,7 +263,7 @@ func (c *connection) onActiveEvent(activeMsg *ActiveMessage, record map[uint16]*
 		Data:        data,
 	}
 	record[seq] = activeMsg
-	verifAt(c, "W.active.recorded", seq)
+	verifAt(c, "W.active.recorded", seq, activeMsg)
 	_, err := c.conn.Write(data)
 	verifAt(c, "W.active.written", seq, err)
 	replyMsg := newActiveMessage(seq, activeMsg.Command, data, err)
